@@ -23,7 +23,7 @@ CHECKS = {
     "C12": {
         "prop": "C12",
         "level": "exploration",
-        "families": [("packaged_loop", 32, 1)],
+        "families": [("packaged_loop", 40, 1)],
         "rule": "one run = launch.launch_sim (real Simulator + AttitudeEstimator('mrp') + Logger + Core) for 30-40 simulated seconds, noise off, "
                 "with seeded true initial attitude (whole unit ball) and gyro bias (+-0.1 rad/s), initialise on/off, field inclination / "
                 "declination / strength, sim / imu / mag / logger rates, correction rate limits and tie-break policy; invariants on every "
@@ -41,7 +41,7 @@ CHECKS = {
     "C11": {
         "prop": "C11",
         "level": "fault_enumeration",
-        "families": [("driven_estimator", 192, 1)],
+        "families": [("driven_estimator", 256, 1)],
         "rule": "one run = the real AttitudeEstimator('mrp') node on the real bus for 2-10 simulated seconds, driven by a stub sensor peer whose "
                 "explicit timed message list carries seeded message faults (drop, dup, reorder, delay, burst, gap, timestamp jumps) and value "
                 "faults (scale, offset, spike, stuck, zero norm, vertical field, huge rate), from a default or randomised in-domain (x, W); "
@@ -59,7 +59,7 @@ CHECKS = {
     "C15": {
         "prop": "C15",
         "level": "fault_enumeration",
-        "families": [("controller_recursion", 48, 1)],
+        "families": [("controller_recursion", 64, 1)],
         "rule": "one run = the unmodified scripts/rdd2_sim.py node stepped for 400-3000 ticks by a simulated timer (jitter, missed, long, "
                 "duplicate ticks) while a simulated pilot moves the sticks and switches input / control modes and a glitch process acts "
                 "between plant and controller (quaternion sign flips, attitude / position jumps, stale state, forced position reset), with "
@@ -78,7 +78,7 @@ CHECKS = {
     "C17": {
         "prop": "C17",
         "level": "exploration",
-        "families": [("hover_convergence", 32, 1)],
+        "families": [("hover_convergence", 40, 1)],
         "rule": "one run = the unmodified scripts/rdd2_sim.py node (plant, cascade, gains, allocation as wired in the script) at its nominal 100 Hz "
                 "on the simulated clock for 25 s (position cascade) or 30 s (SE_2(3) log-linear cascade) from a seeded initial condition: position "
                 "within 3 m of the commanded hover point, tilt <= 60 deg about a random axis with random yaw and either quaternion sign, body "
